@@ -215,7 +215,7 @@ IAUTH_RULES = [
     ("irc_pton", r"while \(ii < 8\) switch", 42), ("irc_pton_ip4", r"while \(1\) switch", 18),
     ("irc_ntop", r"for \(max_start", 9), ("irc_ntop", r"for \(pos = 0, ii = 0", 9), ("irc_ntop", r"APPEND\(", 2),
     ("vsnprintf", r"while \(\*fmt\)", 70), ("vsnprintf", r"while \(\*s\)", 81),
-    ("iauth_send", r"COLLECT\(", 70), ("iauth_x_query", r"COLLECT\(", 40), ("st_scan", r"while \(\*p == ' '", 4), ("st_scan", r"while \(st_digit", 22),
+    ("iauth_send", r"COLLECT\(", 70), ("iauth_x_query", r"COLLECT\(", 40), ("st_scan", r"while \(\*p == ' '", 24), ("st_scan", r"while \(st_digit", 24),
 ]
 
 
@@ -283,9 +283,10 @@ IJ("C06.xq_check", "C06", "h_xq_check", XQ_CALLEES, harness="harness/h_iauth_xq.
    assumptions=SET_ASSUME, bound="service table of 2 slots", cls="bounded", timeout=2400, cost=20, defines=["NSRV=2"])
 
 PROPS["C09"] = dict(level="proof", explanation="single formatter iauth_send proved against the line format with the printf model; address text via C12; log channel separation in C18/C09.log")
-IO_UNW = ["--unwind", "14", "--unwindset", "put_str.0:41,put_dec.0:12,put_dec.1:12,h_send.0:13,h_send.1:41,h_send.2:14,h_send.3:129,h_send.4:129,fputs.0:130,iauth_send.0:5,memset.0:600"]
-IJ("C09.send", "C09", "h_send", SETM, harness="harness/h_iauth_io.c", stubs=IAUTH_STUBS + ["stubs/stdout_model.c"], functions=["iauth_send"],
-   cbmc=IO_UNW, cls="bounded", bound="string arguments of <= 11 bytes; every format string used by the daemon", timeout=1800, cost=10)
+IO_UNW = ["--unwind", "14", "--unwindset", "put_str.0:41,fputs.0:130,iauth_send.0:5,memset.0:600"]
+for _k in range(22):
+    IJ("C09.send.fmt%02d" % _k, "C09", "h_send", SETM, harness="harness/h_iauth_io.c", stubs=IAUTH_STUBS + ["stubs/stdout_model.c"], functions=["iauth_send"],
+       cbmc=IO_UNW, unwind_rules=[("h_send", r"i < 128", 129), ("h_send", r"i < (40|IRC_NTOP_MAX)", 42), ("h_send", r"i < (11|12|6);", 13), ("h_send", r"f\[i\]", 14)], cls="bounded", bound="string arguments of <= 11 bytes; one job per format string used by the daemon", defines=["KIND=%d" % _k], timeout=1800, cost=4)
 IJ("C04.routing_roundtrip", "C04", "h_routing_roundtrip", SETM, harness="harness/h_iauth_io.c", stubs=IAUTH_STUBS + ["stubs/stdout_model.c"],
    functions=["iauth_routing", "iauth_validate_request"], cbmc=IO_UNW, assumptions=SET_ASSUME + ["S2 strtol/strtoul are CBMC's library models"], timeout=1800, cost=10)
 IJ("C04.validate_any", "C04", "h_validate_any", SETM, harness="harness/h_iauth_io.c", stubs=IAUTH_STUBS + ["stubs/stdout_model.c"],
@@ -297,15 +298,18 @@ PARSERS = ["parse_new_client", "parse_disconnect", "parse_hostname", "parse_no_h
 
 
 def _c08_jobs(tier, seed):
-    n = 12 if tier == "quick" else 20
+    n = 10 if tier == "quick" else 16
+    rules = IAUTH_RULES + [
+        ("iauth_read", r"while \(\(line = evbuffer_readln", 3), ("iauth_read", r"for \(argc = 0; argc <", n // 2 + 3),
+        ("iauth_read", r"for \(; isspace\(\*sep\)", n + 2), ("iauth_read", r"for \(; \(\*sep != ", n + 2),
+        ("evbuffer_readln", r"", n + 3), ("model_dispatch", r"", 17), ("h_read", r"", n + 2)]
     d = dict(id="C08.read.len%d" % n, prop="C08", cls="bounded", bound="every input line of at most %d bytes" % n,
              srcs=IAUTH_SRCS, stubs=IAUTH_STUBS + ["stubs/stdout_model.c"], harness="harness/h_iauth_io.c", entry="h_read",
-             remove_bodies=PARSERS + SETM, late_stubs=TRAMP, checks=["ptr", "ovf", "shift"], defines=["LINE_MAX_V=%d" % n],
-             cbmc=["--unwind", str(n + 3), "--unwinding-assertions", "--object-bits", "10", "--no-malloc-may-fail",
-                   "--unwindset", "model_dispatch.0:17,iauth_read.0:3"],
-             unwind_rules=IAUTH_RULES, unwind_rules_optional=True, functions=["iauth_read"],
+             remove_bodies=PARSERS + SETM + ["iauth_send", "parse_registered"], late_stubs=TRAMP, checks=["ptr", "ovf", "shift"], defines=["LINE_MAX_V=%d" % n],
+             cbmc=["--unwind", "4", "--unwinding-assertions", "--object-bits", "10", "--no-malloc-may-fail"],
+             unwind_rules=rules, unwind_rules_optional=True, functions=["iauth_read"],
              assumptions=SET_ASSUME + ["S3 evbuffer_read/evbuffer_readln by contract: a fresh NUL-terminated line without newline, any content"],
-             timeout=3000, cost=30)
+             timeout=3000, cost=30, mem=20)
     return [d]
 
 
@@ -313,8 +317,31 @@ GENERATORS.append(_c08_jobs)
 
 PROPS["C11"] = dict(level="proof", explanation="rule criteria conjunction, class/username effects, first-match scan; glob semantics are libc's (uninterpreted); rule compilation order by C19 + conf_object_cmp")
 CL_STUBS = [x for x in IAUTH_STUBS if "fnmatch" not in x]
-IJ("C11.rule_check", "C11", "h_rule_check", ["iauth_xreply_ok", "iauth_trust_username", "iauth_send", "iauth_check_request"] + SETM, harness="harness/h_iauth_class.c", stubs=CL_STUBS,
-   functions=["iauth_class_rule_check"], cbmc=["--unwind", "72", "--unwindset", "irc_check_mask.0:9,spec_prefix_equal.0:130,memset.0:200,strlen.0:72,memcpy.0:72"],
-   cls="bounded", bound="class / rule names up to 69 bytes; glob results uninterpreted", assumptions=["fnmatch is libc's: its result is an arbitrary input of the proof (S2)"], timeout=1800, cost=10)
+for _cn, _tiers, _unw in ((8, ("quick",), "12"), (70, ("thorough",), "72")):
+    IJ("C11.rule_check.name%d" % (_cn - 1), "C11", "h_rule_check", ["iauth_xreply_ok", "iauth_trust_username", "iauth_send", "iauth_check_request"] + SETM,
+       harness="harness/h_iauth_class.c", stubs=CL_STUBS, functions=["iauth_class_rule_check"], defines=["CN_MAX=%d" % _cn], tiers=_tiers,
+       cbmc=["--unwind", _unw, "--unwindset", "irc_check_mask.0:9,spec_prefix_equal.0:130,memset.0:200,h_rule_check.0:66,h_rule_check.1:67,h_rule_check.2:67,h_rule_check.3:67,h_rule_check.4:66,h_rule_check.5:66,fnmatch.0:67,strchr.0:67"],
+       cls="bounded", bound="class / rule names up to %d bytes; glob results uninterpreted" % (_cn - 1),
+       assumptions=["fnmatch is libc's: its result is an arbitrary input of the proof (S2)"], timeout=2400, cost=10)
 IJ("C11.class_assign", "C11", "h_class_assign", ["iauth_class_rule_check", "iauth_send"] + SETM, harness="harness/h_iauth_class.c", stubs=CL_STUBS,
    functions=["iauth_class_assign", "iauth_class_foreach_rule"], cbmc=["--unwind", "6"], cls="bounded", bound="up to 4 rules", timeout=900, cost=3)
+
+# =========================================================================== C20
+PROPS["C20"] = dict(level="model_checking", explanation="real module.c over every dependency matrix of MODS stub modules and every listing; loader by model (S4), module table by the set contract")
+
+
+def _c20_jobs(tier, seed):
+    m = 3 if tier == "quick" else 4
+    return [dict(id="C20.graph.M%d" % m, prop="C20", cls="bounded", bound="%d stub modules, every dependency matrix (2^%d graphs), 1-2 modules named in the configuration in any order" % (m, m * m),
+                 srcs=["src/common.c"], stubs=["stubs/tramp_set.c", "stubs/printf_model.c"], harness="harness/h_module.c", entry="h_module_graph",
+                 defines=["MODS=%d" % m, "SET_MODEL_MAX=%d" % (m + 1)], checks=["ptr"],
+                 remove_bodies=["xmalloc", "xrealloc", "reg_exit_func"], late_stubs=[],
+                 cbmc=["--unwind", str(m + 2), "--unwinding-assertions", "--object-bits", "10", "--no-malloc-may-fail",
+                       "--unwindset", "strcasecmp.0:4,strlen.0:4,strcpy.0:4,vsnprintf.0:12,vsnprintf.1:6,const_string_vector_remove.0:%d" % (2 * m + 2)],
+                 functions=["module_load_list", "module_load", "module_depends", "module_dfs", "module_close_all", "module_cleanup", "module_get", "const_string_vector_remove"],
+                 assumptions=["S4 dlopen/dlsym/dlclose by model: stub modules whose constructors call the real module_depends",
+                              "module table through the set contract (spec/set_model.h), discharged for set.c in C19"],
+                 timeout=3000, mem=20, cost=50)]
+
+
+GENERATORS.append(_c20_jobs)
